@@ -71,7 +71,7 @@ def run_tlc(ctx):
         tlc.require_ok(res, "Katz/" + cfg)
         ctx.add_tlc("Katz/" + cfg, res)
         out.append((dict(V=V, N=N, sos_in=sos_in, T=T, name=cfg, exhaustive=True), res.records))
-    gens = [(2, 3, True, 4, 60), (2, 3, False, 4, 60), (3, 2, False, 3, 40), (17, 2, False, 2, 5)]  # V=17: > 255 nodes per level, offsets leave uint8
+    gens = [(2, 3, True, 4, 60), (2, 3, False, 4, 60), (3, 2, False, 3, 40), (2, 4, True, 5, 40), (2, 4, False, 5, 30), (17, 2, False, 2, 5)]  # V=17: > 255 nodes per level, offsets leave uint8
     if not ctx.quick:
         gens = [(2, 3, True, 4, 400), (2, 3, False, 4, 400), (3, 2, False, 3, 300), (3, 3, True, 4, 150), (2, 4, True, 5, 150), (2, 4, False, 5, 100), (17, 2, False, 2, 12), (17, 2, True, 2, 6)]
     gdir = ctx.subdir("katz_gen")
@@ -177,6 +177,19 @@ def check_table(job):
             if not same(got, exp):
                 bad("LookupLanguageModel.__call__", "value_view_with_storage_offset",
                     "history given as a slice big[2:%d] of a larger tensor: %s" % (2 + T, first_diff(got) if got.shape == exp.shape else got.shape))
+        # every history ALONE (batch size 1): what one element gets must not depend on which other histories are batched
+        # with it (e.g. on whether some OTHER candidate n-gram is still alive at a higher order)
+        for b in (range(B) if B <= 32 else rng.sample(range(B), 32)):
+            got = lm(hist[:, b:b + 1]).double()
+            if got.shape != exp[:, b:b + 1].shape or not same(got, exp[:, b:b + 1]):
+                bad("LookupLanguageModel.__call__", "value_batch_of_one", "history %r evaluated alone differs from the specification "
+                    "(and from the same history inside the batch)" % (hist[:, b].tolist(),), dict(alone=hist[:, b].tolist()))
+                break
+            got = lm(hist[:, b:b + 1], None, T)[0].double()
+            if not same(got, exp[T, b:b + 1]):
+                bad("LookupLanguageModel.__call__", "idx_value_batch_of_one", "history %r evaluated alone at idx=%d" % (hist[:, b].tolist(), T),
+                    dict(alone=hist[:, b].tolist(), idx=T))
+                break
         for chunk in range(1, T + 2):
             got = lm.calc_full_log_probs_chunked(hist, dict(), chunk).double()
             if not same(got, exp):
